@@ -84,6 +84,12 @@ pub fn run_worker<P: Property>(a: WorkerArgs) -> ! {
             if !reported_keys.insert(f.key.clone()) {
                 continue; // one replay per signature and worker
             }
+            // a deviation that does not show again on the same case is not a reproducible unit: report it as
+            // inconclusive (exit 2), never as a violation
+            if !(0..3).any(|_| run_case(&p, &case).failures.iter().any(|g| g.key == f.key)) {
+                res.harness_errors.push(format!("case {index}: deviation `{}` was observed once and not reproduced in three re-runs of the same case (inconclusive): {}", f.key, f.detail.chars().take(300).collect::<String>()));
+                continue;
+            }
             let tree = new_tree::<P>(&strategy, a.seed, index);
             let (min_case, min_f, _) = shrink(&p, tree, &f.key);
             let (min_case, min_f) = reduce_structurally(&p, min_case, &f.key, min_f);
